@@ -48,6 +48,7 @@ NONNULL_LIST_PARAMS = set()   # (function name, parameter name): private functio
 RET_ARITY_CLS = {}        # (class name, method name) -> n, likewise, for classes defined once
 RET_ARITY = {}            # function / method name (defined once in the package) -> n when every return is a tuple display of n elements
 SENTINELS = {}            # modname -> names bound once, at module level, to a fresh `object()` (private markers)
+FOREIGN_INLINED = set()      # names of foreign methods / functions that were inlined at least once in this load (only those may be dropped when unreferenced)
 FOREIGN_HOME_MODULES = set()     # top-level module names of the package (filled by the loader)
 FOREIGN_FUNCS = {}    # module-level functions of top-level package modules, likewise (callers import them by name)
 FOREIGN = {}          # method name -> FunctionDef: methods of package classes (defined once in the whole package, not known to the rule tables,
@@ -167,13 +168,13 @@ def drop_dead_foreign(trees, logs=()):
             elif isinstance(n, ast.Constant) and isinstance(n.value, str) and n.value.isidentifier():
                 refs.add(n.value)
     for name, fn in list(FOREIGN_FUNCS.items()):
-        if name in refs:
+        if name in refs or name not in FOREIGN_INLINED:
             continue
         for t in trees.values():
             if any(st is fn for st in t.body):
                 t.body[:] = [st for st in t.body if st is not fn]
     for name, fn in list(FOREIGN.items()):
-        if name in refs:
+        if name in refs or name not in FOREIGN_INLINED:
             continue
         for t in trees.values():
             for st in t.body:
@@ -2788,6 +2789,8 @@ class Inliner(object):
         if _contains_own(st.body, ast.Break) or _contains_own(st.body, ast.Continue) or _size(st.body) > 8:
             return False
         pre, body, tag, fresh = self._prepare(caller, st.iter, h, recv, False)
+        if FOREIGN.get(h.name) is h or FOREIGN_FUNCS.get(h.name) is h:
+            FOREIGN_INLINED.add(h.name)
 
         def subst(stmts):
             out = []
@@ -2843,6 +2846,8 @@ class Inliner(object):
                         continue
                     if new:
                         self.stats["INLINE"] = self.stats.get("INLINE", 0) + 1
+                        if FOREIGN.get(h.name) is h or FOREIGN_FUNCS.get(h.name) is h:
+                            FOREIGN_INLINED.add(h.name)
                         return True
                 # expression helpers inside while-tests etc.
                 if isinstance(st, ast.While):
